@@ -14,6 +14,7 @@ def handle (line : String) : String :=
       match op with
       | "hash" => Drv.opHash j
       | "auth" => Drv.opAuth j
+      | "objkind" => Drv.opObjKind j
       | "overlap" => Drv.opOverlap j
       | "normpath" => Drv.opNormPath j
       | "storeops" => Drv.opStoreOps j
